@@ -118,3 +118,41 @@ func readBad(src io.Reader) ([]byte, error) {
 	}
 	return buf[:], nil
 }
+
+// ---- R-STAMP/eq and R-TRUNC
+
+type stampGood int64
+type stampBad int64
+
+func reuseGood(old, now stampGood) bool { return old == now }
+func reuseBad(old, now stampBad) bool   { return now <= old }
+
+func writeGood(path string, b []byte) error {
+	f, err := os.Create(path)
+	if err != nil {
+		return err
+	}
+	defer f.Close()
+	_, err = f.Write(b)
+	return err
+}
+
+func writeTruncGood(path string, b []byte) error {
+	f, err := os.OpenFile(path, os.O_WRONLY|os.O_CREATE|os.O_TRUNC, 0o600)
+	if err != nil {
+		return err
+	}
+	defer f.Close()
+	_, err = f.Write(b)
+	return err
+}
+
+func writeBad(path string, b []byte) error {
+	f, err := os.OpenFile(path, os.O_WRONLY|os.O_CREATE, 0o600)
+	if err != nil {
+		return err
+	}
+	defer f.Close()
+	_, err = f.Write(b)
+	return err
+}
